@@ -345,3 +345,7 @@ def run(ctx):
     r15_4(ctx, R, head)
     c02.r2_6(ctx, R)
     ctx.rule("R2.6", "see C02 R2.6 (shared): unbounded push performs exactly one insertion on every path")
+    import c17
+    c17.r17_3(ctx, R)
+    ctx.rule("R17.3", "see C17 R17.3 (shared): size_hint of every collection is (len(), Some(len())) -- the fourth observer agrees "
+                      "with len / is_empty / is_terminated")
